@@ -181,6 +181,9 @@ func init() {
 // GetHdrType returns the corresponding HdrT type for a given header name.
 // The header name should not contain any leading or ending white space.
 func GetHdrType(name []byte) HdrT {
+	if len(name) == 0 {
+		return HdrOther
+	}
 	i := hashHdrName(name)
 	for _, h := range hdrNameLookup[i] {
 		if bytescase.CmpEq(name, h.n) {
